@@ -381,9 +381,10 @@ fn cycle<const N: usize>() {
     gene_conserving(&c1, &c2, &p1, &p2);
     assert!(is_perm_of_0n(&c1) && is_perm_of_0n(&c2), "cycle crossover: a child is not a permutation");
 }
-/// @verif anchor=cycle_crossover tier=thorough bound="permutations of length 3 (all pairs)"
-#[cfg_attr(kani, kani::proof)] #[cfg_attr(kani, kani::unwind(6))]
-pub fn c13_cycle_n3() { cycle::<3>() }
+// NOT registered: undecided in the thorough run (CBMC gives up on the symbolic `position` searches); lengths 1..5 are enumerated
+// natively (c13_native_kernels).
+#[allow(dead_code)]
+pub fn c13_cycle_n3_unregistered() { cycle::<3>() }
 // NOT registered: all pairs of length-4 permutations: 50-minute limit hit in the thorough run; lengths 1..5 enumerated natively (c13_native_kernels)
 #[allow(dead_code)]
 pub fn c13_cycle_n4_unregistered() { cycle::<4>() }
